@@ -3,7 +3,7 @@
 //! history: a shortened trace is just another history.
 
 use crate::exec::Exec;
-use crate::rules::R;
+use crate::rules::{Violation, R};
 use crate::trace::*;
 
 pub struct Shrunk {
@@ -13,15 +13,17 @@ pub struct Shrunk {
     pub detail: String,
 }
 
-fn fails(t: &Trace, rule: R, execs: &mut usize) -> Option<(usize, String)> {
+fn fails(t: &Trace, rule: R, execs: &mut usize, unknown: &dyn Fn(&Violation) -> bool) -> Option<(usize, String)> {
     *execs += 1;
     let r = Exec::run(t);
-    r.violations.iter().find(|v| v.rule == rule).map(|v| (v.idx, v.detail.clone()))
+    r.violations.iter().find(|v| v.rule == rule && unknown(v)).map(|v| (v.idx, v.detail.clone()))
 }
 
-pub fn shrink(orig: &Trace, rule: R, budget: usize) -> Option<Shrunk> {
+/// `unknown` filters out violations that match a recorded finding: the minimised trace must still
+/// show a violation that is not listed.
+pub fn shrink(orig: &Trace, rule: R, budget: usize, unknown: &dyn Fn(&Violation) -> bool) -> Option<Shrunk> {
     let mut execs = 0;
-    let (mut idx, mut detail) = fails(orig, rule, &mut execs)?;
+    let (mut idx, mut detail) = fails(orig, rule, &mut execs, unknown)?;
     let mut cur = orig.clone();
     // nothing after the violating event can matter
     cur.events.truncate(idx + 1);
@@ -30,7 +32,7 @@ pub fn shrink(orig: &Trace, rule: R, budget: usize) -> Option<Shrunk> {
         if cand == *cur {
             return false;
         }
-        if let Some((i, d)) = fails(&cand, rule, execs) {
+        if let Some((i, d)) = fails(&cand, rule, execs, unknown) {
             *cur = cand;
             cur.events.truncate(i + 1);
             *idx = i;
